@@ -10,6 +10,7 @@ import (
 )
 
 type vfile struct {
+	fifo    bool // a named pipe: size 0 as far as Stat knows, yet reading delivers the content
 	name    string
 	content value // string or rope
 	exists  bool
@@ -105,6 +106,36 @@ func init() {
 		}
 		of.pos += n
 		return tuple{in.intConst(int64(n)), nilError()}
+	}
+	// (*os.File).Stat: a FileInfo (the real *os.fileStat type) with the size of the virtual file;
+	// a named pipe reports size 0 whatever is written into it
+	externals["(*os.File).Stat"] = func(in *Interp, fr *frame, args []value) value {
+		of := fileOf(in, args[0])
+		if of == nil {
+			return tuple{iface{}, in.newError("invalid argument")}
+		}
+		t := in.findType("os", "fileStat")
+		z := in.zero(t).(structure)
+		st := t.Underlying().(*types.Struct)
+		for i := 0; i < st.NumFields(); i++ {
+			switch st.Field(i).Name() {
+			case "name":
+				z[i] = of.f.name
+			case "size":
+				n := 0
+				if !of.f.fifo && !of.f.isDir {
+					n = len(in.bytesOf(of.f.content))
+				}
+				z[i] = in.intConst(int64(n))
+			}
+		}
+		var cell value = z
+		return tuple{iface{t: types.NewPointer(t), v: &cell}, nilError()}
+	}
+	shims["verifFifo"] = func(in *Interp, fr *frame, args []value) value {
+		name := "/virtual/fifo/" + in.concStr(args[0], "fifo tag")
+		in.vfs()[name] = &vfile{name: name, content: args[1], exists: true, fifo: true}
+		return name
 	}
 	externals["(*os.File).Close"] = func(in *Interp, fr *frame, args []value) value {
 		if fileOf(in, args[0]) == nil {
